@@ -30,7 +30,7 @@ def call(c):
 def fault(e):
     if e["mode"] == "delay":
         return "FOk"      # a slow call, not a failure
-    if e["mode"] == "before":
+    if e["mode"] in ("before", "empty", "typednil"):
         return "FBefore"
     if e["mode"] in ("after", "late"):
         return "(FAfter %d)" % e["j"]
@@ -211,6 +211,7 @@ def run(ctx):
                        "non-trivial = a failure entry was consumed; distinct by (store prefix, statement, schedule, bulk)")
     ctx.cov["samples"] = [slim(r) for r in runs if consumed(r)][:3]
     ctx.cov["statements"] = len({r["case"] for r in runs})
+    ctx.cov["runs_with_empty_error_message"] = sum(1 for r in runs if any(e["mode"] in ("empty", "typednil") for e in (r.get("sched") or [])))
     ctx.cov["runs_under_gomaxprocs_1"] = sum(1 for r in runs if r.get("procs") == 1)
     ctx.cov["runs_with_slow_twin_call"] = sum(1 for r in runs if any(e["mode"] == "delay" for e in (r.get("sched") or [])))
     ctx.cov["runs_failing_after_limit_elements"] = sum(1 for r in runs if "LIMIT" in r["stmt"]["text"]
